@@ -574,7 +574,18 @@ fn build_doc(rng: &mut Rng, iota: bool) -> (Doc, Store, Vec<MethodSpec>, Vec<DID
         }
       }
     }
-    let pubkey = serde_json::to_value(doc.core().resolve_method(&id, None).expect("generated method resolves")).ok().and_then(|v| pubkey_of_json(&v));
+    // the method's key as it stands in the document's JSON form (found by the literal id text, not through the library's lookup)
+    let pubkey = {
+      let v: Value = match &doc {
+        Doc::Core(d) => serde_json::to_value(d).expect("harness: document to JSON"),
+        Doc::Iota(d) => serde_json::to_value(d).expect("harness: document to JSON"),
+      };
+      let inner = if iota { &v["doc"] } else { &v };
+      let id_text = id.to_string();
+      std::iter::once("verificationMethod").chain(RELS.iter().map(|r| member_of(MethodScope::VerificationRelationship(*r)))).find_map(|member| {
+        inner.get(member)?.as_array()?.iter().find(|e| e.get("id").and_then(|x| x.as_str()) == Some(id_text.as_str())).and_then(pubkey_of_json)
+      })
+    };
     specs.push(MethodSpec { fragment: frag, id, scopes, pubkey });
   }
   // methods of other DIDs that share a fragment with one of the document's own methods (listed after them, so that
